@@ -66,6 +66,12 @@ func TestVerifC12(t *testing.T) {
 	defer R.Write()
 	rng := R.Rand("c12")
 	c12Library(R, rng)
+	// the reload part runs first: SIGHUP reaches every agent of this process, and the reload event is only
+	// attributable while the agent under test is the only one
+	if R.Want("reload") {
+		R.Mark("reload")
+		c12Reload(R, rng, "reload")
+	}
 	rounds := vr.Pick(3, 30)
 	for r := 0; r < rounds; r++ {
 		for def := uint(1); def <= 4; def++ {
@@ -85,11 +91,6 @@ func TestVerifC12(t *testing.T) {
 			R.Mark(id)
 			c12Remote(R, rand.New(rand.NewSource(rng.Int63())), id)
 		}
-	}
-	id := "reload"
-	if R.Want(id) {
-		R.Mark(id)
-		c12Reload(R, rng, id)
 	}
 }
 
